@@ -97,6 +97,7 @@ func dfs(name string, procc *runtime.Script, sPath *searchPath, p *param) error 
 	}
 
 	if _, ok := p.retMap[name]; ok {
+		sPath.Pop()
 		return nil
 	}
 
